@@ -265,6 +265,11 @@ def fam_format_keys(rng):
         t2 = " ".join("{" + k + "}" for k in ks)
         kw = ", ".join(f"{k}=1" for k in have + [e for e in extra if e not in ks])
         body.append(f"    print({t2!r}.format({kw}))")
+    if rng.random() < 0.7:
+        # every field is given, plus 2-4 names that no field uses
+        unused = [e for e in _names(rng, 5) if e not in ks][: rng.randrange(2, 5)]
+        kw3 = ", ".join(f"{k}=1" for k in ks + unused)
+        body.append(f"    print({' '.join('{' + k + '}' for k in ks)!r}.format({kw3}))")
     if rng.random() < 0.4:
         t3 = " ".join("{%d}" % i for i in range(0, n, 2))
         body.append(f"    print({t3!r}.format({', '.join('1' * (n + 2))}))")
@@ -372,7 +377,7 @@ def fam_dict_set_display(rng):
     body = ["def f(flag: bool):", f"    s = {{{', '.join(lits)}}}", "    reveal_type(s)",
             f"    d = {{{', '.join(l + ': ' + m for l, m in zip(lits, reversed(lits)))}}}", "    reveal_type(d)",
             f"    d2 = {{{lits[0]}: 1, {lits[0]}: 2, {lits[1]}: 1, {lits[1]}: 3}}", "    reveal_type(d2)",
-            f"    fs = frozenset([{', '.join(lits[:4])}])", "    reveal_type(fs)", "    for e in s: reveal_type(e)",
+            f"    fs = frozenset([{', '.join(lits[:4])}])", "    reveal_type(fs)",
             f"    t = ({', '.join(lits[:3])})", "    for e2 in t: reveal_type(e2)", "    reveal_type(d.get(flag))"]
     return "\n".join([HEADER, *body]) + "\n"
 
